@@ -256,6 +256,18 @@ func (r *rw) expr(e ast.Expr) ast.Expr {
 		}
 		return c
 	case *ast.CallExpr:
+		// (*os.File).Readdir goes through the environment seam: the host may remove an
+		// entry between the names being read and the entry being examined
+		if sel, ok := x.Fun.(*ast.SelectorExpr); ok && sel.Sel.Name == "Readdir" && len(x.Args) == 1 {
+			if t := r.typeOf(sel.X); t != nil && t.String() == "*os.File" {
+				r.counts["readdir"]++
+				c := r.vs("Readdir", sel.X, x.Args[0])
+				if tt := r.typeOf(x); tt != nil {
+					r.xtype[c] = tt
+				}
+				return c
+			}
+		}
 		id, ok := x.Fun.(*ast.Ident)
 		if !ok || len(x.Args) != 1 {
 			return e
